@@ -415,10 +415,14 @@ void group_ops(G g, const path& p, std::size_t i, EN en, HN hn)
 }
 
 // ---- cursor traversals ---------------------------------------------------
-//   ctrav <msg> <hex image> <n | all> <count>
-// For every n and every (k, wrapper) with k < count, wrapper in plain, init, dont_move,
-// init_dont_move, skip: `auto c = sbepp::init_cursor(m)`, members 0..k-1 in schema order through
-// the plain cursor (entries through cursor_range), member k through the wrapper, then stop.
+//   ctrav <msg> <hex image> <n | all> <k>:<variant>;<k>:<variant>;...
+// For every n and every listed run (k, variant): `auto c = sbepp::init_cursor(m)`, members 0..k-1 in
+// schema order through the plain cursor (entries through cursor_range), member k through the variant,
+// then stop.  variant 0..4: the GETTER `v.NAME(w)` with w = c, init(c), dont_move(c), init_dont_move(c),
+// skip(c); variant 5..8: the SETTER `v.NAME(value, w)` with w = c, init(c), dont_move(c),
+// init_dont_move(c) (scalar fields only: composite / array / group / data members answer `?`; `skip`
+// has no setters).  The value written has every byte 0x5a.
+// Older form: `ctrav <msg> <hex image> <n | all> <count>` = the runs k < count x variant 0..4.
 struct done
 {
 };
@@ -429,6 +433,8 @@ struct ctrav
     int variant;
     long k;
 };
+
+constexpr std::uint64_t set_bits = 0x5a5a5a5a5a5a5a5aull;
 
 #define C10_VARIANTS(T, V, NAME, C)                                    \
     switch((T).variant)                                                \
@@ -445,9 +451,40 @@ struct ctrav
     case 3:                                                            \
         (void)(V).NAME(::sbepp::cursor_ops::init_dont_move(C));        \
         break;                                                         \
-    default:                                                           \
+    case 4:                                                            \
         (V).NAME(::sbepp::cursor_ops::skip(C));                        \
         break;                                                         \
+    default:                                                           \
+        throw ::c10::bad_path{};                                       \
+    }
+
+// scalar fields: the getters, and the setters through the cursor and the three wrappers that have one
+#define C10_SCALAR_VARIANTS(T, V, NAME, C)                                                     \
+    if((T).variant < 5)                                                                        \
+    {                                                                                          \
+        C10_VARIANTS(T, V, NAME, C)                                                            \
+    }                                                                                          \
+    else                                                                                       \
+    {                                                                                          \
+        using c10_value_t = decltype((V).NAME(C));                                             \
+        const auto c10_value = ::gd::make<c10_value_t>(::c10::set_bits);                       \
+        switch((T).variant)                                                                    \
+        {                                                                                      \
+        case 5:                                                                                \
+            (V).NAME(c10_value, C);                                                            \
+            break;                                                                             \
+        case 6:                                                                                \
+            (V).NAME(c10_value, ::sbepp::cursor_ops::init(C));                                 \
+            break;                                                                             \
+        case 7:                                                                                \
+            (V).NAME(c10_value, ::sbepp::cursor_ops::dont_move(C));                            \
+            break;                                                                             \
+        case 8:                                                                                \
+            (V).NAME(c10_value, ::sbepp::cursor_ops::init_dont_move(C));                       \
+            break;                                                                             \
+        default:                                                                               \
+            throw ::c10::bad_path{};                                                           \
+        }                                                                                      \
     }
 
 // one member: through the wrapper and stop if it is the target, else through the plain cursor
@@ -457,6 +494,15 @@ struct ctrav
         C10_VARIANTS(T, V, NAME, C)       \
         throw ::c10::done{};              \
     }                                     \
+    (T).k++;
+
+// the same for a scalar (non-view) field
+#define C10_ACCS(T, V, NAME, C)             \
+    if((T).k == (T).target)                 \
+    {                                       \
+        C10_SCALAR_VARIANTS(T, V, NAME, C)  \
+        throw ::c10::done{};                \
+    }                                       \
     (T).k++;
 
 using fn_t = std::function<void(char*, std::size_t, const path&)>;
@@ -486,7 +532,31 @@ inline int main_loop(const std::map<std::string, msg_entry>& table)
         const auto img = proto::unhex(hex);
         if(cmd == "ctrav")
         {
-            const long count = std::strtol(ps.c_str(), nullptr, 10);
+            std::vector<std::pair<long, int>> runs;
+            if(ps.find(':') == std::string::npos)
+            {
+                const long count = std::strtol(ps.c_str(), nullptr, 10);
+                for(long k = 0; k < count; k++)
+                {
+                    for(int var = 0; var < 5; var++)
+                    {
+                        runs.emplace_back(k, var);
+                    }
+                }
+            }
+            else
+            {
+                for(const auto& r : split(ps, ';'))
+                {
+                    const auto f = split(r, ':');
+                    if(f.size() == 2)
+                    {
+                        runs.emplace_back(
+                            std::strtol(f[0].c_str(), nullptr, 10),
+                            static_cast<int>(std::strtol(f[1].c_str(), nullptr, 10)));
+                    }
+                }
+            }
             std::size_t lo = 0, hi = img.size();
             if(ns != "all")
             {
@@ -500,25 +570,27 @@ inline int main_loop(const std::map<std::string, msg_entry>& table)
                 {
                     out += ",";
                 }
-                for(long k = 0; k < count; k++)
+                for(const auto& r : runs)
                 {
-                    for(int var = 0; var < 5; var++)
-                    {
-                        std::memcpy(gb.p, img.data(), std::min(n, img.size()));
-                        ctrav t{k, var, 0};
-                        const auto st = proto::guarded(
-                            [&]
+                    std::memcpy(gb.p, img.data(), std::min(n, img.size()));
+                    ctrav t{r.first, r.second, 0};
+                    bool bad = false;
+                    const auto st = proto::guarded(
+                        [&]
+                        {
+                            try
                             {
-                                try
-                                {
-                                    it->second.cur(gb.p, n, t);
-                                }
-                                catch(const done&)
-                                {
-                                }
-                            });
-                        out += st.empty() ? "o" : st == "ASSERT" ? "A" : st == "FAULT" ? "F" : "U";
-                    }
+                                it->second.cur(gb.p, n, t);
+                            }
+                            catch(const done&)
+                            {
+                            }
+                            catch(const bad_path&)
+                            {
+                                bad = true;
+                            }
+                        });
+                    out += bad ? "?" : st.empty() ? "o" : st == "ASSERT" ? "A" : st == "FAULT" ? "F" : "U";
                 }
             }
             std::cout << out << "\n";
